@@ -69,9 +69,44 @@ def _nested_generic_under_contra(tb, q, contra=False):
     return False
 
 
-def subtype_search_shape(tb, q):
+def _unjustified_changes(tb, q, t):
+    """positions where the result's argument differs from the query's in a way the position does not allow"""
+    if t[0] != 'c' or t[1] != q[1]:
+        return 'result of another class'
+    parts = []
+    for (pn, var, b), qa, ra in zip(tb.cls[q[1]].params, q[2], t[2]):
+        if qa == ra:
+            continue
+        who = var + (':var-bound' if b is not None and b[0] == 'v' else '')
+        qk = qa[0] if qa[0] != 't' else 'plain'
+        if qa[0] == '*' or ra[0] == '*':
+            parts.append('%s=%s star changed' % (who, qk))
+            continue
+        Q, R = qa[1], ra[1]
+        if Q == R:
+            if ra[0] == 't':
+                continue                     # a projection replaced by its own bound: contained
+            rel = 'projection changed to %s' % ra[0]
+        elif below(tb, R, Q, 'may') and not below(tb, Q, R, 'may'):
+            rel = 'narrowed'
+            if (var == 'out' or qa[0] == 'out') and ra[0] in ('t', 'out'):
+                continue
+        elif below(tb, Q, R, 'may') and not below(tb, R, Q, 'may'):
+            rel = 'widened'
+            if (var == 'in' or qa[0] == 'in') and ra[0] in ('t', 'in'):
+                continue
+        else:
+            rel = 'unrelated'
+        if ra[0] != qa[0] and ra[0] != 't' and Q != R:
+            rel += ', projection changed to %s' % ra[0]
+        parts.append('%s=%s %s' % (who, qk, rel))
+    return 'argument ' + '; '.join(parts) if parts else 'no single position to blame'
+
+
+def subtype_search_shape(tb, q, t=None):
     if has_dependent_param(tb, q):
-        return 'query instantiates a class with a dependent parameter (T2 : T1)'
+        return 'query instantiates a class with a dependent parameter (T2 : T1): ' + (
+            _unjustified_changes(tb, q, t) if t is not None else query_shape(tb, q))
     if _nested_generic_under_contra(tb, q):
         return 'query nests a parameterized argument in a contravariant position (declared in / in-projection)'
     return 'other query: ' + query_shape(tb, q)
@@ -159,7 +194,7 @@ def check_table(sk, lang, tier, found, stats, cap):
                         stats['results_with_bare_constructor_unjudged'] = stats.get('results_with_bare_constructor_unjudged', 0) + 1
                         continue
                     if not below(tb, t, q, 'may'):
-                        rec(found, 'result-not-a-subtype', 'find_subtypes', subtype_search_shape(tb, q),
+                        rec(found, 'result-not-a-subtype', 'find_subtypes', subtype_search_shape(tb, q, t),
                             sk, lang, q, flags, trace, 'returned %s' % (rsub.show(t) if t[0] != 'tc' else t,))
                 has_self = q in terms
                 if include_self and not has_self:
